@@ -993,6 +993,115 @@ def mocks_explore(ctx, exe, blocks, label, env=None):
     return ndis, nspec
 
 
+MACRO_PREAMBLE = r"""/* GENERATED by harness/props.py (macro_layer): the operation histories of the mock correspondence, written with the public
+ * macros of <cgreen/mocks.h> (expect, always_expect, never_expect, when, times, will_return, is_equal_to, ...) instead of the
+ * functions behind them. Same output protocol as harness/mock_ops.c. */
+#include <cgreen/cgreen.h>
+#include <cgreen/mocks.h>
+#include <stdio.h>
+#include <stdlib.h>
+#include <string.h>
+#include <stdint.h>
+#ifdef __cplusplus
+using namespace cgreen;
+#endif
+extern "C_OR_NOT" void cgreen_verif_dump_expectations(FILE *out);
+static char outbuf[1 << 16];
+static size_t outlen;
+static void record(TestReporter *reporter, const char *file, int line, int result, const char *message, ...) {
+    (void)reporter; (void)message;
+    if (strcmp(file, "ops") == 0)
+        outlen += snprintf(outbuf + outlen, sizeof outbuf - outlen, "%sc%d:%d", outlen ? " " : "", line, result ? 1 : 0);
+    else
+        outlen += snprintf(outbuf + outlen, sizeof outbuf - outlen, "%scU:%d", outlen ? " " : "", result ? 1 : 0);
+}
+static intptr_t f0(void) { return mock(); }
+static intptr_t f1(intptr_t a_b) { return mock(a_b); }
+static intptr_t f1_b(intptr_t a_b, intptr_t a) { return mock(a_b, a); }
+static intptr_t f1_bc(intptr_t a_b, intptr_t a, intptr_t a_b_c) { return mock(a_b, a, a_b_c); }
+static void emit(void) { printf("out %s | q ", outbuf); cgreen_verif_dump_expectations(stdout); printf("\n"); outlen = 0; outbuf[0] = 0; }
+static void ret(intptr_t r) { outlen += snprintf(outbuf + outlen, sizeof outbuf - outlen, "%sr%lld", outlen ? " " : "", (long long)r); }
+"""
+
+
+def macro_layer(ctx, impl, rng, label):
+    """The public macro layer of <cgreen/mocks.h> against the same model: generated histories compiled into a translation unit that
+    declares every expectation with expect()/always_expect()/never_expect() and their clause macros (each on a line of its own
+    numbered with #line, so that a check is attributed to its declaration exactly as in harness/mock_ops.c)."""
+    from mock_checks import gen_history, run_model_ops, outs_of
+    blocks = []
+    while len(blocks) < sizes(ctx, 150, 1500):
+        b = [o for o in gen_history(rng, rng.choice([3, 6, 10, 16]))]
+        if any(tok.startswith("s") for o in b for tok in o.split(" ")[2:] if o.split(" ")[0] in ("expect", "always", "never")): continue
+        blocks.append(b)
+    FN, PN = ["f0", "f1", "f1_b", "f1_bc"], ["a_b", "a", "a_b_c"]
+    CONS = {"eq": "is_equal_to", "ne": "is_not_equal_to", "lt": "is_less_than", "gt": "is_greater_than"}
+    out = [MACRO_PREAMBLE]
+    for k, b in enumerate(blocks):
+        out.append(f"static void block_{k}(TestReporter *reporter) {{\n    int unused_{k} = 0; (void)unused_{k}; (void)reporter;")
+        nid = 0
+        for o in b:
+            t = o.split(" ")
+            if t[0] == "mode":
+                out.append(f"    cgreen_mocks_are({t[1]}_mocks); emit();")
+            elif t[0] == "tally":
+                out.append("    tally_mocks(reporter); emit();")
+            elif t[0] == "call":
+                f = int(t[1]); ar = [0, 1, 2, 3][f]
+                args = [(t[2 + i] if 2 + i < len(t) else "0") + "LL" for i in range(ar)]
+                out.append(f"    ret({FN[f]}({', '.join('(intptr_t)' + a for a in args)})); emit();")
+            else:
+                f = int(t[1]); clauses = []
+                for tok in t[2:]:
+                    if tok[0] == "t": clauses.append(f"times({int(tok[1:])})")
+                    elif tok[0] == "r": clauses.append(f"will_return({int(tok[1:])}LL)")
+                    elif tok[0] == "w":
+                        pp, cmp_, v = tok[1:].split(":")
+                        clauses.append(f"when({PN[int(pp)]}, {CONS[cmp_]}({int(v)}LL))")
+                macro = {"expect": "expect", "always": "always_expect", "never": "never_expect"}[t[0]]
+                out.append(f'#line {nid} "ops"\n    {macro}({", ".join([FN[f]] + clauses)}); emit();')
+                nid += 1
+        out.append("}")
+    out.append("extern CgreenTest *current_test;\nstatic CgreenTest dummy_test = { 0, &defaultContext, \"unexpected\", NULL, \"unexpected-call\", 0 };")
+    out.append("int main(void) {\n    TestReporter *reporter = create_reporter();\n    reporter->assert_true = &record;\n    setup_reporting(reporter);\n    current_test = &dummy_test;")
+    for k in range(len(blocks)):
+        out.append(f"    clear_mocks(); cgreen_mocks_are(strict_mocks); block_{k}(reporter); printf(\"---\\n\");")
+    out.append("    fflush(stdout);\n    return 0;\n}")
+    model = run_model_ops("mocks", blocks)
+    nrun = 0
+    for lang in ("c", "c++"):
+        src = "\n".join(out).replace('extern "C_OR_NOT" ', 'extern "C" ' if lang == "c++" else "extern ")
+        path = os.path.join(ctx.work, f"macro_ops_{label}.{'c' if lang == 'c' else 'cpp'}")
+        open(path, "w").write(src)
+        try:
+            exe = compile_harness(ctx, impl, f"macro_ops_{lang}", [path], cxx=(lang == "c++"), extra=["-w"], out=f"macro_ops_{label}_{'c' if lang == 'c' else 'cpp'}")
+        except BuildError as e:
+            ctx.oblige(f"the generated histories compile through the public mock macros ({lang})", False, str(e)[-600:])
+            continue
+        got, rc, err = run_impl_ops(exe, [], env=asan_env())
+        nrun += 1
+        if rc != 0 or len(got) != len(blocks):
+            k = min(len(got), len(blocks) - 1)
+            ctx.violation(f"[{label}] histories written with the public mock macros ({lang}): the program ended with {rc} in history #{k}: " +
+                          " ".join(l.strip() for l in err.split("\n") if "ERROR" in l or "SUMMARY" in l)[:300],
+                          "# the history (grammar of harness/mock_ops), written with expect()/always_expect()/never_expect()/when()/times()/will_return()\n" + "\n".join(blocks[k]),
+                          found_input=True, facts={"crash": True, "macro_layer": True})
+            continue
+        ndis = 0
+        for b, a, m in zip(blocks, got, model):
+            ia, ma = [outs_of(l) for l in a], [outs_of(l) for l in m]
+            if ia != ma:
+                ndis += 1
+                if ndis <= 3:
+                    j = next((i for i, (x, y) in enumerate(zip(ia, ma)) if x != y), min(len(ia), len(ma)))
+                    ctx.violation(f"[{label}] written with the public mock macros ({lang}), operation #{j} `{b[j] if j < len(b) else '?'}` reports {ia[j] if j < len(ia) else None}; "
+                                  f"through the functions behind the macros (and in the model) it reports {ma[j] if j < len(ma) else None}",
+                                  "# the history (grammar of harness/mock_ops); the generated program declares each expectation with the macro of <cgreen/mocks.h>\n" + "\n".join(b),
+                                  found_input=True, facts={"macro_layer": True})
+        ctx.oblige(f"correspondence {label}: histories written with the public mock macros ({lang}) behave as the model says", ndis == 0, f"{ndis} histories disagree")
+    ctx.coverage["macro_layer"] = {"histories": len(blocks), "languages_run": nrun}
+
+
 def check_C06(ctx):
     lean_check(ctx)
     rng = random.Random(ctx.seed * 1000 + 6)
@@ -1006,6 +1115,7 @@ def check_C06(ctx):
               ["expect 1 w0:lt:2", "call 1 3", "tally"], ["never 0", "never 0", "call 0", "tally"],
               ["always 2 r5", "expect 2", "call 2 1 1", "tally"]]
     r = mocks_explore(ctx, exe, corpus + blocks, "C06", env=asan_env())
+    macro_layer(ctx, impl, rng, "C06")
     if r:
         ctx.oblige("correspondence C06: model and implementation agree after every operation of every history", r[0] == 0, f"{r[0]} histories disagree")
     ctx.coverage["samples"] = [" ; ".join(b[:12]) for b in blocks[:3]]
@@ -1055,6 +1165,7 @@ def check_C07(ctx):
     ctx.coverage["systematic_family"] = len(fam)
     blocks = [gen_history(rng, rng.choice([3, 6, 10, 20])) for _ in range(sizes(ctx, 1500, 40000))]
     r = mocks_explore(ctx, exe, blocks, "C07", env=asan_env())
+    macro_layer(ctx, impl, rng, "C07")
     if r:
         ctx.oblige("correspondence C07: model and implementation agree after every operation of every history", r[0] == 0, f"{r[0]} histories disagree")
     ctx.coverage["samples"] = [" ; ".join(f[0]) for f in fam[:4]]
